@@ -41,6 +41,7 @@ CHECKS = {
               "(3) End to end for the pandas backend (theory/PandasDetect.v): engine generated from typeset.py + relation table generated from types/*.py + membership predicates "
               "generated from backends/pandas/types/*.py, composed - for every abstract pandas series, every parent-closed list of shipped types in any order, any guards on the inference "
               "relations; the table fact 'identity relations carry no explicit guard/transformer' is decided by computation on the regenerated table. "
+              "(4) The same composition for the Python-list backend (theory/PythonDetect.v) with the membership predicates generated from backends/python/types/*.py, for every abstract list. "
               "The conclusion is additionally exercised on the implementation for shipped typesets and random parent-closed sub-typesets on pandas / list / numpy inputs and frames, "
               "also after interleaved inference calls."),
         ref="DESIGN.md section 3 (C01)",
